@@ -1,10 +1,10 @@
-\* thorough, exhaustive: 2 connections x 2 requests x 2 callers x 3 hooks
+\* thorough, exhaustive: 3 connections x 2 callers x 1 hook, standard transport
 CONSTANTS
-  Conns = {c1, c2}
+  Conns = {c1, c2, c3}
   Callers = {k1, k2}
-  Hooks = {h1, h2, h3}
-  BeyondHooks = {h3}
-  MaxReq = 2
+  Hooks = {h1}
+  BeyondHooks = {}
+  MaxReq = 1
   Transport = "standard"
   ServerRun = TRUE
   CasLoserErrors = TRUE
